@@ -1,31 +1,38 @@
 #!/usr/bin/env python3
 """Regenerate lean/obligations.json from the `#print axioms <name>` lines that end every Props file.
+Props/Cnn*.lean belongs to property Cnn (several files per property are allowed). A line
+`#print axioms X -- also C11 C17` attaches the theorem to further properties as well.
 The statement text is the doc comment preceding the theorem (first 300 characters)."""
 import re, json, glob, os
 ROOT = os.path.dirname(os.path.dirname(os.path.abspath(__file__)))
 out = {}
+lemma_src = {lf: open(lf).read() for lf in glob.glob(os.path.join(ROOT, "lean/RaftVerif/Lemmas/*.lean"))}
 for f in sorted(glob.glob(os.path.join(ROOT, "lean/RaftVerif/Props/C*.lean"))):
-    pid = os.path.basename(f)[:-5]
+    base = os.path.basename(f)[:-5]
+    pid = base[:3]
     src = open(f).read()
-    module = "RaftVerif.Props." + pid
+    module = "RaftVerif.Props." + base
     opens = re.findall(r"^open ([\w.]+)\s*$", src, re.M)
-    names = re.findall(r"^#print axioms ([\w.'?!]+)", src, re.M)
-    obs = []
-    for n in names:
+    for m0 in re.finditer(r"^#print axioms ([\w.'?!]+)[ \t]*(?:--[ \t]*also[ \t]+([C\d ]+))?", src, re.M):
+        n, also = m0.group(1), (m0.group(2) or "").split()
         short = n.split(".")[-1]
         full = n
         if "." not in n or not (n.startswith("Raft") or n.startswith("RaftVerif")):
-            # opened namespace: qualify with the last `open`
             if opens:
                 full = opens[-1] + "." + n
-        m = re.search(r"/--((?:(?!-/).)*)-/\s*(?:@\[[^\]]*\]\s*)?(?:private\s+)?theorem\s+" + re.escape(short) + r"\b", src, re.S)
-        stmt = re.sub(r"\s+", " ", m.group(1)).strip()[:300] if m else ""
+        pat = r"theorem\s+(?:[\w.]+\.)?" + re.escape(short) + r"(?![\w'?!])"
+        m = re.search(r"/--((?:(?!-/).)*)-/\s*(?:@\[[^\]]*\]\s*)?(?:private\s+)?" + pat, src, re.S)
         mod = module
-        # theorems that live in lemma modules
-        for lf in glob.glob(os.path.join(ROOT, "lean/RaftVerif/Lemmas/*.lean")):
-            if re.search(r"theorem\s+" + re.escape(short) + r"\b", open(lf).read()) and not re.search(r"theorem\s+" + re.escape(short) + r"\b", src):
-                mod = "RaftVerif.Lemmas." + os.path.basename(lf)[:-5]
-        obs.append({"name": full, "module": mod if mod != module else module, "statement": stmt})
-    out[pid] = obs
+        if not re.search(pat, src):
+            for lf, ls in lemma_src.items():
+                if re.search(pat, ls):
+                    mod = "RaftVerif.Lemmas." + os.path.basename(lf)[:-5]
+                    m = re.search(r"/--((?:(?!-/).)*)-/\s*(?:@\[[^\]]*\]\s*)?(?:private\s+)?" + pat, ls, re.S)
+                    break
+        stmt = re.sub(r"\s+", " ", m.group(1)).strip()[:300] if m else ""
+        for p in [pid] + also:
+            lst = out.setdefault(p, [])
+            if not any(o["name"] == full for o in lst):
+                lst.append({"name": full, "module": mod, "statement": stmt})
 json.dump(out, open(os.path.join(ROOT, "lean/obligations.json"), "w"), indent=1)
-print({k: len(v) for k, v in out.items()})
+print({k: len(v) for k, v in sorted(out.items())})
